@@ -370,7 +370,11 @@ func formatYear(t time.Time, marker *variableMarker) (string, error) {
 
 	y := t.Year()
 	if size > 0 {
-		y = y % pow10(size)
+		// pow10 overflows for large widths (and wraps to zero
+		// for a width of 64). A year always fits in that case.
+		if p := pow10(size); p > 0 {
+			y = y % p
+		}
 	}
 
 	return formatIntegerComponent(y, marker)
